@@ -1,0 +1,16 @@
+//go:build verif
+
+// Package verifhook provides scheduling points for the verification harness.
+// Built only with the "verif" tag; without it every call compiles to nothing.
+package verifhook
+
+// Yield, when set by the harness, is called at points where a goroutine holds
+// no lock but has more work to do, so that interleavings can be steered.
+var Yield func(point string)
+
+// At marks a scheduling point.
+func At(point string) {
+	if f := Yield; f != nil {
+		f(point)
+	}
+}
